@@ -35,7 +35,7 @@ Fields == [
                  {"absent", "right", "zero", "max63", "overlong", "too_long"},
                  {"ok", "big", "missing"}>>,
   lzma2    |-> <<{"e0", "00", "01", "02", "03", "7f", "80", "a0", "c0", "ff"}, {"fit", "max", "csize_lt5"},
-                 {"5d", "e0", "e1", "ff", "lclp5"}, {"valid", "zeros", "ff", "cut"}, {"64k", "4096", "2p32m1"}>>,
+                 {"5d", "e0", "e1", "ff", "lclp5"}, {"valid", "zeros", "ff", "cut"}, {"64k", "4096", "2p32m1", "0", "1"}>>,
   lzma     |-> <<{"5d", "00", "e0", "e1", "ff"}, {"4096", "0", "1", "2p32m1", "2p32m16"}, {"exact", "0", "1", "plus1", "2p63", "unknown"},
                  {"valid", "zeros", "ff", "empty", "first_nonzero"}, {"none", "64m"}>>,
   lzip     |-> <<{"1", "0", "2", "255"}, {"0c", "1d", "0b", "1e", "ec", "fd"}, {"right", "zero", "one", "plus1", "2p63", "file_plus"},
@@ -120,7 +120,7 @@ Expected(c) ==
 \* dictionary the input declares, in KiB (what the decoder is entitled to allocate for it)
 DictKiB(c) ==
   CASE c.fam = "xz_bh" -> (IF c.f3 = "0" THEN 4 ELSE IF c.f3 = "18" THEN 2048 ELSE IF c.f3 = "39" THEN 3145728 ELSE IF c.f3 = "40" THEN 4194304 ELSE 0)
-    [] c.fam = "lzma2" -> (IF c.f5 = "4096" THEN 4 ELSE IF c.f5 = "64k" THEN 64 ELSE 4194304)
+    [] c.fam = "lzma2" -> (IF c.f5 \in {"4096", "0", "1"} THEN 4 ELSE IF c.f5 = "64k" THEN 64 ELSE 4194304)   \* below 4 KiB: raised to the minimum
     [] c.fam = "lzma" -> (IF c.f2 = "2p32m16" /\ c.f3 \in {"2p63", "unknown"} THEN 4194304 ELSE 4)    \* clamped to the declared size otherwise
     [] c.fam = "lzip" -> (IF c.f2 = "1d" THEN 524288 ELSE IF c.f2 = "fd" THEN 294912 ELSE 4)
     [] c.fam = "xz_index" -> 64
